@@ -3,15 +3,17 @@ package main
 
 import (
 	"github.com/drand/drand/v2/zzverif/cli"
+	"github.com/drand/drand/v2/zzverif/enghttp"
 	"github.com/drand/drand/v2/zzverif/engnode"
 	"github.com/drand/drand/v2/zzverif/extract"
 )
 
 func main() {
 	cli.Main(map[string]cli.RunFn{
-		"extract": func(out string, _ int64, _ string) error { return extract.Run(cli.Repo, out) },
-		"smoke":   engnode.Smoke,
-		"node":    engnode.Run,
-		"reshare": engnode.RunReshare,
+		"extract":  func(out string, _ int64, _ string) error { return extract.Run(cli.Repo, out) },
+		"smoke":    engnode.Smoke,
+		"node":     engnode.Run,
+		"reshare":  engnode.RunReshare,
+		"httpwait": enghttp.Run,
 	})
 }
